@@ -24,7 +24,8 @@ type Monitors struct {
 	lastAction map[string]time.Time
 	// failedAt[rs key] = first time the RS was observed Canary-Failed (C07 retention)
 	failedAt map[string]time.Time
-	// createdBy[pod key] = inputs digest at creation (C10 no-flap)
+	// created[pod key] = inputs digest at creation (C10 spurious replace)
+	created       map[string]*podInputs
 	templateEdits map[string]int
 	// Disabled rules (prefix match), e.g. when a workload deliberately breaks a premise
 	Disabled map[string]bool
@@ -41,7 +42,7 @@ var safetyProps = map[string]bool{"C01": true, "C03": true, "C04": true, "C05": 
 
 // NewMonitors builds the monitor set.
 func NewMonitors(w *World) *Monitors {
-	return &Monitors{w: w, lastAction: map[string]time.Time{}, failedAt: map[string]time.Time{}, templateEdits: map[string]int{}, Disabled: map[string]bool{}}
+	return &Monitors{w: w, lastAction: map[string]time.Time{}, failedAt: map[string]time.Time{}, created: map[string]*podInputs{}, templateEdits: map[string]int{}, Disabled: map[string]bool{}}
 }
 
 func (m *Monitors) viol(prop, rule string, attrs map[string]string, inv *simapi.Invocation, detail map[string]any) {
@@ -107,6 +108,7 @@ type ERSView struct {
 	Role          string
 	Canary        map[string]bool
 	FirstWriteSeq uint64
+	Settings      []*v1.ExtendedDaemonsetSetting // as listed by the sync, in list order
 }
 
 func roleOf(eds *v1.ExtendedDaemonSet, rsName string) string {
@@ -144,6 +146,10 @@ func ersView(inv *simapi.Invocation) *ERSView {
 			nodesSeen = true
 			for _, o := range c.Objs {
 				v.Nodes[o.GetName()] = o.(*corev1.Node)
+			}
+		case c.Verb == "list" && c.Kind == simapi.KindSetting && v.Settings == nil:
+			for _, o := range c.Objs {
+				v.Settings = append(v.Settings, o.(*v1.ExtendedDaemonsetSetting))
 			}
 		case c.Verb == "list" && c.Kind == simapi.KindPod && v.FirstWriteSeq == 0:
 			// pod lists read before the first write: daemon pods and old-DaemonSet pods.
@@ -325,6 +331,7 @@ func (m *Monitors) onERS(inv *simapi.Invocation, out kit.Outcome) {
 				m.viol("C13", "C13.pod-template-faithful", nil, inv, d)
 			}
 			ctx.Count("C10.sim-pod-creates-judged")
+			m.judgeCreatedResources(inv, v, c, pod)
 			if pod.Labels[v1.ExtendedDaemonSetNameLabelKey] != v.EDS.Name || pod.Labels[v1.ExtendedDaemonSetReplicaSetNameLabelKey] != v.RS.Name || pod.Namespace != v.RS.Namespace {
 				m.viol("C10", "C10.labels", nil, inv, d)
 			}
@@ -348,6 +355,13 @@ func (m *Monitors) onERS(inv *simapi.Invocation, out kit.Outcome) {
 				m.viol("C01", "C01.unknown-untouched", map[string]string{"verb": "delete"}, inv, map[string]any{"pod": podKey(pre)})
 			}
 			if isUpdateDelete(c) {
+				n := 0
+				for _, p := range podsByNode[kit.NodeOfPod(pre)] {
+					if p.Status.Phase != corev1.PodFailed && p.Status.Phase != corev1.PodUnknown {
+						n++
+					}
+				}
+				m.judgeSpuriousReplace(inv, v, c, pre, phaseAsRead, n == 1, eligible(kit.NodeOfPod(pre)))
 				updateDeletes = append(updateDeletes, c)
 			} else {
 				cleanupDeletes = append(cleanupDeletes, c)
@@ -446,12 +460,24 @@ func (m *Monitors) onERS(inv *simapi.Invocation, out kit.Outcome) {
 	// C04 label-on: a canary-role sync makes sure its own pod on each canary node carries the canary label
 	if role == "canary" && managed {
 		patched := map[string]bool{}
+		patchFailed := false
 		for _, c := range inv.Calls {
 			if c.Verb == "patch" && c.Kind == simapi.KindPod && c.Submitted != nil && c.Submitted.GetLabels()[v1.ExtendedDaemonSetReplicaSetCanaryLabelKey] == v1.ExtendedDaemonSetReplicaSetCanaryLabelValue {
 				patched[c.NS+"/"+c.Name] = true
+				if c.Err != nil {
+					patchFailed = true
+				}
 			}
 		}
+		if patchFailed {
+			// a label patch was refused (the pod had been removed meanwhile): the sync stops labelling
+			// and asks to be run again promptly, so the remaining pods are the next sync's business
+			ctx.Count("C04.label-on-skipped-patch-error")
+		}
 		for node := range v.Canary {
+			if patchFailed {
+				break
+			}
 			if !eligible(node) {
 				continue
 			}
